@@ -13,7 +13,8 @@
 (* CommittedAgree: executions with the same commit discipline also agree   *)
 (* on what is visible now.                                                 *)
 (*                                                                         *)
-(* Variant "ideal" must hold.  Non-vacuity: "S23a" (the HTTP service as    *)
+(* Variant "ideal" must hold.  Non-vacuity: "S25a" (the CLI deletes the     *)
+(* trimmed id, the HTTP service refuses a padded id), "S23a" (the HTTP     *)
 (* built: a rejected add rolls the log back) and "ffi_commit_own_doc" (a C *)
 (* add that would commit only its own document, not what the log holds)    *)
 (* must be refuted.                                                        *)
@@ -38,8 +39,16 @@ Init ==
   /\ n = 0
   /\ hist = <<>>
 
+(* A padded id: " a" is the id "a" with a leading blank. *)
+Trim(id) == IF id = " a" THEN "a" ELSE id
+IdRec(id) == [id |-> id, trimmed |-> Trim(id), padded |-> Trim(id) # id]
+
 VEffect(fe, op, st) ==
-  IF Variant = "S23a" /\ fe = "http" /\ op.kind \in {"add", "update"} /\ ~AllValid(op.docs)
+  IF Variant = "S25a" /\ fe = "cli" /\ op.kind = "delete"
+    THEN [st EXCEPT !.wal = @ \o DelOps(TrimmedIdsOf(op))]
+  ELSE IF Variant = "S25a" /\ fe = "http" /\ op.kind = "delete" /\ AnyPadded(op)
+    THEN st
+  ELSE IF Variant = "S23a" /\ fe = "http" /\ op.kind \in {"add", "update"} /\ ~AllValid(op.docs)
     THEN [st EXCEPT !.wal = <<>>]
   ELSE IF Variant = "ffi_commit_own_doc" /\ fe = "ffi" /\ op.kind \in {"add", "update"} /\ AllValid(op.docs)
     THEN [st EXCEPT !.committed = Fold(AddOps(op.docs), @)]
@@ -61,7 +70,7 @@ DoAdd2 == n < MaxOps /\ \E a, b \in IdSet :
   Do([BlankOp EXCEPT !.kind = "add", !.docs = <<Doc(a, ver, TRUE), Doc(b, ver + 1, TRUE)>>], 2)
 DoRejected == Rejections /\ \E a \in IdSet :
   Do([BlankOp EXCEPT !.kind = "add", !.docs = <<Doc(a, ver, FALSE)>>], 1)
-DoDelete == n < MaxOps /\ \E a \in IdSet : Do([BlankOp EXCEPT !.kind = "delete", !.ids = <<a>>], 0)
+DoDelete == n < MaxOps /\ \E a \in IdSet : Do([BlankOp EXCEPT !.kind = "delete", !.ids = <<IdRec(a)>>], 0)
 DoCommit == n < MaxOps /\ Do([BlankOp EXCEPT !.kind = "commit"], 0)
 DoCompact == n < MaxOps /\ Do([BlankOp EXCEPT !.kind = "compact"], 0)
 
